@@ -225,6 +225,54 @@ def annotate_unit(stranded):
 UNITS += [annotate_unit(None), annotate_unit(True), annotate_unit(False)]
 
 
+# method 1 (per aligned base): exactly the reference positions a read base is aligned to are looked up - not the bases a
+# deletion or a spliced gap skips, not insertions or clipped bases
+def ann_setup_per_base(eng):
+    from pyvc.engine import Obj, named, fresh, INT, BOOL, STR
+    from pyvc import stubs
+    ann_setup(eng)
+    eng.ghost['lookups'] = []
+    r = named(INT, 'read_start')
+    eng.assume(r.z >= 0)
+    eng.spec_env['R'] = r
+    # 1S 2M 1D 1I 1M 2N 2M: query 0 clipped, 1-2 matched, reference r+2 deleted, query 3 inserted, query 4 matched at r+3,
+    # reference r+4..r+5 skipped, query 5-6 matched at r+6..r+7
+    def pairs(e, o, matches_only=False, with_seq=False):
+        from pyvc.engine import Sym
+        full_ = [(q, Sym(r.z + d, INT) if d is not None else None) for q, d in
+                 [(0, None), (1, 0), (2, 1), (None, 2), (3, None), (4, 3), (None, 4), (None, 5), (5, 6), (6, 7)]]
+        if matches_only:
+            return [(q, p) for q, p in full_ if q is not None and p is not None]
+        return full_
+
+    def at(e, o, chromosome=None, lookupCoordinate=None, strand=None, **k):
+        e.ghost['lookups'].append((chromosome, lookupCoordinate, strand))
+        return [e.spec_env['HIT']] if e.branch(fresh(BOOL, 'container_reports_a_hit').z) else []
+    stubs.STUBS['PairRead'] = {'methods': {'get_aligned_pairs': pairs}, 'props': {'reference_name': lambda e, o: 'chr1'}, 'setters': {}}
+    stubs.STUBS['FeatureContainerStub']['methods']['findFeaturesAt'] = at
+    rd = Obj('PairRead', {})
+    rd.vc_immutable = True
+    eng.loader.call_hooks['singlecellmultiomics.molecule.molecule.Molecule.iter_reads'] = lambda e, f, a, k, n: [rd]
+
+
+annotate_per_base = Contract(
+    PROP, FAM + '::FeatureAnnotatedMolecule.annotate', name='FeatureAnnotatedMolecule.annotate[method 1: per aligned base]',
+    params={'self': ann_self(None), 'method': ('const', 1)},
+    setup=ann_setup_per_base,
+    ensures={
+        'exactly_the_aligned_reference_positions_are_looked_up':
+            '[q[1] for q in GHOST["lookups"]] == [R, R + 1, R + 3, R + 6, R + 7] and '
+            'all(q[0] == "chr1" and q[2] is None for q in GHOST["lookups"])',
+        'marked_annotated': 'self.is_annotated == True',
+    },
+    raises={},
+    bounded='one read 1S2M1D1I1M2N2M at a symbolic start, at most one feature per lookup',
+    assumptions=['pysam get_aligned_pairs(matches_only=...) per its documentation (A4); FeatureContainer.findFeaturesAt through a '
+                 'recording stub (its exactness: units above)'],
+)
+UNITS.append(annotate_per_base)
+
+
 # ------------------------------------------------------------------------------ a range query must not disturb later point queries (the
 # point lookups are memoised: a caller that edits a returned list edits the memo)
 def query_sequence(n=1):
